@@ -34,7 +34,9 @@
                         order of the key), wsize (bytes the item adds to a proto EvidenceList),
                         basic (ValidateBasic passes, i.e. the item can reach the pool at all)
    c.pairs[q]           conflicting vote pairs consensus may report: h, val, dv (the item
-                        NewDuplicateVoteEvidence yields from the chain facts of h)
+                        NewDuplicateVoteEvidence yields from the chain facts of h), late (what
+                        it would yield with the validator set of h+1: an item id, = dv when the
+                        sets agree on the signer, "nil" when the signer is not in that set)
 
    ---- pool state ----------------------------------------------------------------------
    p.pending            ids stored under the pending prefix (at most one id per key)
@@ -58,7 +60,9 @@ CONSTANTS
   Weak_BufferDropped,      \* Update throws the consensus buffer away
   Weak_NoReloadOnRestart,  \* NewPool does not recount / reload pending evidence
   Weak_PendingSkipsExpiry, \* CheckEvidence trusts already-pending evidence without an expiry check (code before the fix)
-  Weak_LateAddUnchecked    \* the store step of AddEvidence does not re-check the committed marker (code before the fix)
+  Weak_LateAddUnchecked,   \* the store step of AddEvidence does not re-check the committed marker (code before the fix)
+  Weak_BufferUsesCurrentValSet \* late conflicting votes (height below the one just decided) become evidence with the
+                               \* validator set of the NEW state instead of the set of their own height
 
 Max2(a, b) == IF a > b THEN a ELSE b     \* (Range comes with SequencesExt -> Functions)
 
@@ -258,11 +262,20 @@ Report(c, p, q) == [p EXCEPT !.buffer = Append(@, q)]
 \* ------------------------------------------------------------------ Update
 \* processConsensusBuffer(state): votes of height <= the new height become evidence with the
 \* chain's time and validator set of that height; NOT verified, NOT checked for expiry
+\* votes of the height just decided: state.LastBlockTime / state.LastValidators;
+\* LATE votes (q.h < to, e.g. a conflicting precommit arriving with the LastCommit):
+\* blockStore.LoadBlockMeta(q.h).Header.Time / stateDB.LoadValidators(q.h).  Both are the facts
+\* of q.h, so the item is q.dv.  (Weak: the late branch keeps the new state's validator set;
+\* when the signer is not in it NewDuplicateVoteEvidence returns nil and isPending(nil) panics.)
+FlushItem(c, q, to) == IF Weak_BufferUsesCurrentValSet /\ q.h < to THEN q.late ELSE q.dv
+FlushPanics(c, p, to) ==
+  Weak_BufferUsesCurrentValSet /\ ~Weak_BufferDropped
+  /\ \E i \in DOMAIN p.buffer : c.pairs[p.buffer[i]].h < to /\ c.pairs[p.buffer[i]].late = "nil"
 RECURSIVE FlushFrom(_, _, _, _)
 FlushFrom(c, p, to, i) ==
   IF i > Len(p.buffer) THEN p
   ELSE LET q  == c.pairs[p.buffer[i]]
-           id == q.dv
+           id == FlushItem(c, q, to)
            k  == KeyOf(c, id)
        IN IF q.h > to \/ IsPendingKey(c, p, k) \/ k \in p.committed
           THEN FlushFrom(c, p, to, i + 1)
@@ -324,7 +337,10 @@ Step(c, p, a) ==
   CASE a.name = "Add"     -> AddEvidence(c, p, a.id)
     [] a.name = "Check"   -> CheckEvidence(c, p, a.ids)
     [] a.name = "Report"  -> [p |-> Report(c, p, a.pair), res |-> "ok", why |-> "none"]
-    [] a.name = "Update"  -> [p |-> Update(c, p, a.to, a.ids, a.crash), res |-> "ok", why |-> "none"]
+    [] a.name = "Update"  ->
+         IF FlushPanics(c, p, a.to)     \* the block is in the block store, the pool call never returns
+         THEN [p |-> [p EXCEPT !.tip = Max2(@, a.to)], res |-> "panic", why |-> "none"]
+         ELSE [p |-> Update(c, p, a.to, a.ids, a.crash), res |-> "ok", why |-> "none"]
     [] a.name = "Pending" -> [p |-> p, res |-> "ok", why |-> "none"]
     [] a.name = "Restart" -> [p |-> Restart(c, p), res |-> "ok", why |-> "none"]
     [] a.name = "AddBegin" ->
@@ -375,9 +391,14 @@ StepViol(c, p, q, a) ==
         THEN {"AdmitOnlyAdmissible"} ELSE {})
   \* ... and nothing else puts evidence there, except the consensus buffer at Update
 \cup (IF a.name \in {"Report", "Pending", "Restart", "AddBegin"} /\ new # {} THEN {"AdmitOnlyAdmissible"} ELSE {})
-\cup (IF a.name = "Update" /\ \E x \in new : ~\E i \in DOMAIN p.buffer :
-                                   c.pairs[p.buffer[i]].dv = x /\ c.pairs[p.buffer[i]].h <= q.height
+  \* ... and that evidence is the one the reported votes prove against the validator set and
+  \* block time of THEIR height (also for votes reported late, after the set has changed)
+\cup (IF a.name = "Update" /\ \E x \in new :
+            \/ ~\E i \in DOMAIN p.buffer : c.pairs[p.buffer[i]].dv = x /\ c.pairs[p.buffer[i]].h <= q.height
+            \/ ~Proves(c, q, x)
         THEN {"AdmitOnlyAdmissible"} ELSE {})
+  \* a call that panics neither admits / refuses evidence nor turns reported votes into evidence
+\cup (IF a.res = "panic" THEN {"NoPanic"} ELSE {})
   \* the "if" direction for genuine fresh items the code can verify
 \cup (IF a.name = "Add" /\ Known(c, a.id) /\ Admissible(c, p, a.id) /\ CodeVerify(c, p, a.id)
          /\ ~(a.res = "ok" /\ IsPendingKey(c, q, KeyOf(c, a.id)))
@@ -427,6 +448,9 @@ ClassOf(c, p, q, a, inv) ==
     [] inv = "OnceOnly" ->
          (IF a.name = "AddEnd" THEN "add-stored-after-commit" ELSE a.name)
     [] inv = "AdmitOnlyAdmissible" ->
-         (IF a.name = "AddEnd" /\ \E x \in NewIn(p, q) : KeyOf(c, x) \in p.committed THEN "add-stored-after-commit" ELSE a.name)
+         (IF a.name = "AddEnd" /\ \E x \in NewIn(p, q) : KeyOf(c, x) \in p.committed THEN "add-stored-after-commit"
+          ELSE IF a.name = "Update" THEN "Update:evidence-from-buffered-votes-does-not-prove"
+          ELSE a.name)
+    [] inv = "NoPanic" -> a.name \o ":panic"
     [] OTHER -> a.name
 =============================================================================
